@@ -727,3 +727,53 @@ func provThroughFrames(prov *core.Prov, n *core.Node, v ssa.Value) string {
 	}
 	return prov.Of(v)
 }
+
+// checkRetrievedThenGivenUp: in the tick handlers of a package (functions with a single bool
+// result), no `return false` is reachable after a message was taken off a port with
+// RetrieveIncoming (helpers of the package expanded, results of expanded calls followed;
+// the edge on which the retrieved value was found nil does not count). Returns the
+// number of retrieval sites examined.
+func checkRetrievedThenGivenUp(c *core.Ctx, st *core.RuleStat, rule string, pi *PkgInfo, what string) {
+	for _, fn := range pi.Funcs {
+		if fn.Signature.Results().Len() != 1 {
+			continue
+		}
+		if bt, ok := fn.Signature.Results().At(0).Type().Underlying().(*types.Basic); !ok || bt.Kind() != types.Bool {
+			continue
+		}
+		var g *core.Graph
+		for _, b := range fn.Blocks {
+			for _, in := range b.Instrs {
+				cc := core.CallOf(in)
+				if cc == nil || !cc.IsInvoke() || cc.Method.Name() != "RetrieveIncoming" {
+					continue
+				}
+				if g == nil {
+					g = core.BuildGraph(fn, 2, func(cal *ssa.Function) bool { return cal.Pkg == fn.Pkg })
+				}
+				n := g.NodeOf(in)
+				if n == nil {
+					continue
+				}
+				st.Instances++
+				c.MarkAnalysed(fn)
+				retrieved, _ := in.(ssa.Value)
+				empty := NilCut(func(v ssa.Value) bool { return retrieved != nil && v == retrieved }, true)
+				var bad *core.Node
+				g.Walk(core.After(n, nil), core.WalkOpts{ForwardOnly: true, CutEdge: func(m *core.Node, i int) bool { return empty(m, i) }}, func(x core.State) {
+					r, ok := x.N.Instr.(*ssa.Return)
+					if !ok || x.N.Frame.Parent != nil || len(r.Results) != 1 || bad != nil {
+						return
+					}
+					if core.EvalFact(x.N, r.Results[0], x.F) < 0 {
+						bad = x.N
+					}
+				})
+				st.Ob(bad == nil)
+				if bad != nil {
+					c.ReportAt(rule, fn, in.Pos(), "retrieved-then-given-up:"+core.FuncName(fn), core.FuncName(fn)+" takes the message off its port and can then return false: "+what)
+				}
+			}
+		}
+	}
+}
